@@ -151,9 +151,9 @@ pub fn check(case: &Case) -> Outcome {
     }
     let mut expected_files: Vec<String> = vec![];
     for (path, start, len) in t.file_spans() {
-        let candidates: Vec<String> = if geo.multi && geo.files.len() == 1 {
-            vec![format!("{}/{}", geo.name, path), path.clone()]
-        } else if geo.multi {
+        // (a directory-form torrent with a single entry is still a directory: BEP3, and what rdest does since the
+        // repair recorded as F4b)
+        let candidates: Vec<String> = if geo.multi {
             vec![format!("{}/{}", geo.name, path)]
         } else {
             vec![path.clone()]
